@@ -59,29 +59,38 @@ structure PBSt where
   xcoord : Array Rat
   blockmax : Array Rat     -- indexed by root node
 
+/-- the pair the loop body tests for layer list `l` at index `k` (Go's `switch`):
+    `k == len-1 && k > 0`: (l[k-1], l[k]) again; `k < len-1`: (l[k], l[k+1]) -/
+def pairAtGo (l : List Nat) (k : Nat) : List (Nat × Nat) :=
+  let len := l.length
+  if k ≥ len then []
+  else if k == len - 1 && k > 0 then [(l.getD (k - 1) 0, l.getD k 0)]
+  else if k + 1 < len then [(l.getD k 0, l.getD (k + 1) 0)]
+  else []
+
+/-- `for k := 0; k < layerMaxLen; k++ { for _, l := range g.Layers { … } }` -/
+def sweepPairsGo (layers : List (List Nat)) (lmax : Nat) : List (Nat × Nat) :=
+  (List.range lmax).flatMap fun k => layers.flatMap fun l => pairAtGo l k
+
+/-- one test: `if x[b] < x[a] + bw[root a] + spacing { x[b] = …; shift = true; blockmax[root b] = max(…) }` -/
+def pbStep (spacing : Rat) (bwOf : Nat → Rat) (root : Nat → Nat) (acc : PBSt × Bool) (p : Nat × Nat) : PBSt × Bool :=
+  let lim := acc.1.xcoord.getD p.1 0 + bwOf p.1 + spacing
+  if acc.1.xcoord.getD p.2 0 < lim then
+    ({ xcoord := acc.1.xcoord.setIfInBounds p.2 lim,
+       blockmax := acc.1.blockmax.setIfInBounds (root p.2) (maxRat (acc.1.blockmax.getD (root p.2) 0) lim) }, true)
+  else acc
+
+/-- the first loop of `placeBlock`: every node is centred in its block at the block's coordinate -/
+def centreBlocks (g : G) (bwOf : Nat → Rat) (root : Nat → Nat) (s : PBSt) : PBSt :=
+  { s with xcoord := g.nodeIds.foldl (fun (xc : Array Rat) n =>
+      let x := s.blockmax.getD (root n) 0
+      xc.setIfInBounds n (maxRat x (x + (bwOf n - (g.node n).w) / 2))) s.xcoord }
+
 /-- one call of `placeBlock` without the recursion: (new state, shift) -/
 def placeBlockRound (g : G) (lmax : Nat) (spacing : Rat) (bw : Array Rat) (roots : Array Nat) (s : PBSt) : PBSt × Bool :=
   let root := fun n => roots.getD n n
   let bwOf := fun n => bw.getD (root n) 0
-  -- centre every node in its block at the block's coordinate
-  let xc := g.nodeIds.foldl (fun (xc : Array Rat) n =>
-    let x := s.blockmax.getD (root n) 0
-    xc.setIfInBounds n (maxRat x (x + (bwOf n - (g.node n).w) / 2))) s.xcoord
-  let s := { s with xcoord := xc }
-  let step := fun (acc : PBSt × Bool) (a b : Nat) =>
-    let (s, sh) := acc
-    let lim := s.xcoord.getD a 0 + bwOf a + spacing
-    if s.xcoord.getD b 0 < lim then
-      ({ xcoord := s.xcoord.setIfInBounds b lim,
-         blockmax := s.blockmax.setIfInBounds (root b) (maxRat (s.blockmax.getD (root b) 0) lim) }, true)
-    else (s, sh)
-  (List.range lmax).foldl (fun acc k =>
-    g.layers.toList.foldl (fun acc l =>
-      let len := l.nodes.length
-      if k ≥ len then acc
-      else if k == len - 1 && k > 0 then step acc (l.nodes.getD (k - 1) 0) (l.nodes.getD k 0)
-      else if k + 1 < len then step acc (l.nodes.getD k 0) (l.nodes.getD (k + 1) 0)
-      else acc) acc) (s, false)
+  (sweepPairsGo (g.layers.toList.map (·.nodes)) lmax).foldl (pbStep spacing bwOf root) (centreBlocks g bwOf root s, false)
 
 def placeBlock (g : G) (lmax : Nat) (spacing : Rat) (bw : Array Rat) (roots : Array Nat) : Nat → PBSt → M (PBSt × Nat)
   | 0, _ => throw "fuel:phase4.placeBlock"
